@@ -252,7 +252,11 @@ Definition table : list (string * disc * disc) := [
   ("%bound.caller<set>", DNone, DNone);
   ("%fn.caller<get>.caller<get>", DNone, DNone);
   ("%arguments.callee.caller<get>", DNone, DNone);
-  ("%arguments.callee.caller<get>.caller<get>", DNone, DNone)
+  ("%arguments.callee.caller<get>.caller<get>", DNone, DNone);
+  ("%error.stack<get>", DNone, DNone);
+  ("%error.stack<get>.caller<get>", DNone, DNone);
+  ("%thrown.stack<get>", DNone, DNone);
+  ("%thrown.stack<get>.caller<get>", DNone, DNone)
 ].
 Close Scope string_scope.
 
